@@ -28,6 +28,7 @@ macro_rules! dispatch {
             "C10" => $f(&props::hist::HistProp $(, $arg)*),
             "C11" => $f(&props::hist::StopProp $(, $arg)*),
             "C12" => $f(&props::opt::BoundsProp $(, $arg)*),
+            "C13" => $f(&props::fzn::FznProp $(, $arg)*),
             "C14" => $f(&props::dimacs::CnfProp $(, $arg)*),
             "C15" => $f(&props::dimacs::WcnfProp $(, $arg)*),
             "C17" => $f(&props::expl::ExplProp $(, $arg)*),
